@@ -163,6 +163,43 @@ pub fn eval(case: &Case) -> Verdict {
             }
         }
     }
+    // 1b. the bound also holds for the part of the exploration that a fresh process resumes from a
+    // checkpoint file (a fifth of the cases)
+    if !has_await && !has_try && n >= 1 && rn.iters >= 4 && (p.n_ops() + n) % 5 == 0 {
+        use crate::script::{self, RunSpec, Script, Step};
+        let file = script::scratch_file("c15ckpt");
+        let _ = std::fs::remove_file(&file);
+        let mut cfg = case.cfg.clone();
+        cfg.preemption_bound = Some(n);
+        cfg.checkpoint_interval = 1;
+        let mut c1 = cfg.clone();
+        c1.max_permutations = Some(rn.iters / 2);
+        let f = file.to_string_lossy().to_string();
+        let first = script::run_fresh(&Script { steps: vec![Step { runs: vec![RunSpec { prog: p.clone(), cfg: c1, checkpoint_file: Some(f.clone()), keep: Some(0), ..Default::default() }], parallel: false }] });
+        let second = script::run_fresh(&Script { steps: vec![Step { runs: vec![RunSpec { prog: p.clone(), cfg: cfg.clone(), checkpoint_file: Some(f.clone()), ..Default::default() }], parallel: false }] });
+        let _ = std::fs::remove_file(&file);
+        if let (Ok(_), Ok(mut r2)) = (first, second) {
+            v.label("resumed_from_checkpoint");
+            let r2 = r2.remove(0).remove(0);
+            let mut o = refsc::Opts::new();
+            o.notify_any = true;
+            o.max_states = 100_000;
+            let m = refsc::Sc::new(p, o);
+            let free = p.n_atomics() > 0;
+            for rec in &r2.records {
+                let end = if rec.aborted { refsc::End::Any } else { refsc::End::Complete };
+                if let refsc::Replay::Accepted(c) = m.replay(&rec.log, &rec.results, end, free) {
+                    if c as usize > n {
+                        let trace: Vec<String> = rec.log.iter().map(|(t, i)| format!("t{}:{}", t, p.threads[*t as usize][*i as usize])).collect();
+                        return v.fail(
+                            "too_many_preemptions_after_resume",
+                            format!("with preemption_bound={} an execution explored after resuming from a checkpoint contains {} switches away from a thread that could have continued: {}", n, c, trace.join(" ; ")),
+                        );
+                    }
+                }
+            }
+        }
+    }
     // 2. L_n ⊆ L_inf (only when the unbounded run explored everything, i.e. did not stop at a failure)
     if inf.panic.is_none() {
         if let Some(x) = rn.l.iter().find(|x| !inf.l.contains(*x)) {
